@@ -17,6 +17,14 @@ def candles(n, seed=0, kind='random'):
             c = p
         elif kind == 'spikes':
             c = p * (1 + (0.05 if i % 17 == 3 else rng.uniform(-0.002, 0.002)))
+        elif kind == 'burst':
+            # a calm market that turns violent in the last third
+            amp = 0.001 if i < 2 * n // 3 else 0.05
+            c = p * (1 + rng.uniform(-amp, amp))
+        elif kind == 'gaps':
+            # opens that gap away from the previous close
+            p = p * (1 + rng.uniform(-0.004, 0.004))
+            c = p * (1 + rng.uniform(-0.01, 0.01))
         elif kind == 'flatrun':
             # long stretches of motionless candles without volume (a halted market): in the middle and at the end
             if (n // 3 <= i < n // 3 + 45) or i >= n - 45:
@@ -97,6 +105,12 @@ def variants(f):
         out.append({'source_type': 'hl2'})
     if 'direction' in params and params['direction'].default == 'long':
         out.append({'direction': 'short'})
+    # switches: every boolean option flipped, every value of a small integer `mode` selector
+    for k, v in params.items():
+        if k != 'sequential' and isinstance(v.default, bool):
+            out.append({k: not v.default})
+    if 'mode' in params and isinstance(params['mode'].default, int) and not isinstance(params['mode'].default, bool):
+        out += [{'mode': m} for m in range(0, 5) if m != params['mode'].default]
     return out
 
 
@@ -150,12 +164,16 @@ def long_prefix_check(name):
     if d:
         return d
     # a look-ahead of one bar only shows at the last position of a prefix: every prefix length from 30 to 199, default parameters ...
-    d = prefix_check(name, ns=(200,), ks=tuple(range(30, 200)), seeds=(2,), kinds=('random',))
+    d = prefix_check(name, ns=(200,), ks=tuple(range(30, 200)), seeds=(2,), kinds=('random', 'gaps'))
+    if d:
+        return d
+    d = prefix_check(name, ns=(240,), ks=(100, 150, 165, 200), seeds=(4,), kinds=('burst',))
     if d:
         return d
     # ... and non-default parameters: the other parity of the period, another price source
     for kw in variants(get(name)):
-        d = prefix_check(name, ns=(200,), ks=tuple(range(30, 200)), seeds=(2,), kinds=('random',), kwargs=kw)
+        d = prefix_check(name, ns=(200,), ks=tuple(range(30, 200)), seeds=(2,), kinds=('random', 'gaps'), kwargs=kw) \
+            or prefix_check(name, ns=(240,), ks=(100, 150, 165, 200), seeds=(4,), kinds=('burst',), kwargs=kw)
         if d:
             return d
     return None
